@@ -365,4 +365,51 @@ theorem sections_faithful_partial (fs : List FileSection) (h : ((flatSections fs
   · have := sections_fresh dictMerge dictMerge_fresh fs [] (by simpa using h)
     simpa [tomlSections] using this
 
+/-! ## splitting a joined value -/
+
+theorem splitOnAny_ne_nil (seps : List Char) (s : Str) : splitOnAny seps s ≠ [] := by
+  induction s with
+  | nil => simp [splitOnAny]
+  | cons c s ih =>
+    simp only [splitOnAny]
+    split
+    · simp
+    · cases h : splitOnAny seps s <;> simp
+
+theorem splitOnAny_sepfree (seps : List Char) (a : Str) (h : ∀ c ∈ a, seps.contains c = false) (rest : Str) :
+    splitOnAny seps (a ++ rest) =
+      match splitOnAny seps rest with
+      | [] => [a]
+      | p :: ps => (a ++ p) :: ps := by
+  induction a with
+  | nil =>
+    cases h' : splitOnAny seps rest with
+    | nil => exact absurd h' (splitOnAny_ne_nil seps rest)
+    | cons p ps => simp [h']
+  | cons c a ih =>
+    have hc : seps.contains c = false := h c (by simp)
+    have ih' := ih (fun x hx => h x (by simp [hx]))
+    simp only [List.cons_append, splitOnAny, hc, Bool.false_eq_true, if_false, ih']
+    cases splitOnAny seps rest <;> simp
+
+/-- splitting the joined text gives the entries back (entries free of separators) -/
+theorem splitOnAny_joinWith (seps : List Char) (sep : Char) (hs : seps.contains sep = true) :
+    ∀ es : List Str, es ≠ [] → (∀ e ∈ es, ∀ c ∈ e, seps.contains c = false) →
+      splitOnAny seps (joinWith sep es) = es := by
+  intro es
+  induction es with
+  | nil => intro h; exact absurd rfl h
+  | cons a es ih =>
+    intro _ hfree
+    cases es with
+    | nil =>
+      have := splitOnAny_sepfree seps a (hfree a (by simp)) []
+      simpa [joinWith, splitOnAny] using this
+    | cons b r =>
+      have ih' := ih (by simp) (fun e he => hfree e (by simp [he]))
+      simp only [joinWith]
+      rw [splitOnAny_sepfree seps a (hfree a (by simp))]
+      simp only [splitOnAny, hs, if_true, ih']
+      simp
+
 end Config
